@@ -8,7 +8,7 @@
 EXTENDS Integers, Sequences, FiniteSets, TLC
 
 CONSTANTS Apps, AppOrder, Sides, Conns, Class1, Class2, Class3, LongNames, OtherNames,
-          ClientMbox, GenMbox, EXP, PERIOD, Welcome,
+          ClientMbox, GenMbox, EXP, PERIOD, Welcome, BadMoods,
           AL1, US1, BL1, AL2, US2, BL2,
           AddMsgs, MoodSet, ClaimNames, PickSet, AdvanceSteps, MaxTime, MaxMsgs, MaxDepth
 
